@@ -171,7 +171,7 @@ def rule_c(ctx, cr):
         for c in cs:
             d = g.describe(c.args[1])
             from_operand = "expr_pop_line_number" in d or "Stack<T>::pop" in d
-            from_stmt = "arg:col" in d
+            from_stmt = "arg:3" in d
             ok = ok and (from_operand and not from_stmt if src == "operand" else from_stmt)
         ctx.check(ok, "C19.c", "%s/column-source" % name, g.span,
                   "%s receives the %s's column" % (callee, src),
@@ -191,7 +191,7 @@ def rule_c(ctx, cr):
         for c in ins:
             v = f.value_of_operand(c.args[2])
             okk = okk and bool(v and v.get("k") == "rv" and v["rv"].get("agg") == "tuple"
-                               and "col" in f.describe(v["rv"]["ops"][0]))
+                               and "arg:2" in f.describe(v["rv"]["ops"][0]))
         ctx.check(okk, "C19.c", "%s/records-column" % name, f.span,
                   "the unresolved reference remembers its column")
 
